@@ -1576,7 +1576,7 @@ fn main() {
         }
         setup.push(Setup::Restart);
         let case = Case { setup, actors: vec![vec![Op::Append { t: 4, th: 0 }], vec![Op::Append { t: k, th: 0 }]] };
-        exhaustive(&mut ctx, &case, if thorough { 400 } else { 22 }, "exhaustive_cold_counter_first_writers");
+        exhaustive(&mut ctx, &case, if thorough { 200 } else { 22 }, "exhaustive_cold_counter_first_writers");
         // sampled schedules as well: the depth-first order varies the LAST decisions first, and a group is
         // given up when actors block on a lock the harness does not know about
         for _ in 0..(if thorough { 60 } else { 8 }) {
@@ -1586,7 +1586,7 @@ fn main() {
     {
         let setup = vec![Setup::Msg { th: 0 }, Setup::Run { th: 0 }, Setup::Branch { th: 0 }, Setup::Restart];
         let case = Case { setup, actors: vec![vec![Op::Append { t: 4, th: 0 }], vec![Op::Append { t: 4, th: 0 }], vec![Op::Append { t: 13, th: 0 }, Op::Append { t: 4, th: 1 }]] };
-        exhaustive(&mut ctx, &case, if thorough { 600 } else { 40 }, "exhaustive_cold_counter_first_writers");
+        exhaustive(&mut ctx, &case, if thorough { 300 } else { 40 }, "exhaustive_cold_counter_first_writers");
         for _ in 0..(if thorough { 100 } else { 12 }) {
             random_leaf(&mut ctx, &case, &mut r, "random_cold_counter_first_writers");
         }
@@ -1600,9 +1600,9 @@ fn main() {
 
     // ---- corpus S5 (child lineage frame vs a post to the freshly listed child)
     let s5 = Case { setup: vec![Setup::Msg { th: 0 }], actors: vec![vec![Op::Branch { th: 0 }], vec![Op::PostNewest]] };
-    exhaustive(&mut ctx, &s5, if thorough { 4000 } else { 400 }, "corpus_s5_branch_vs_post_newest");
+    exhaustive(&mut ctx, &s5, if thorough { 1500 } else { 400 }, "corpus_s5_branch_vs_post_newest");
     let s5h = Case { setup: vec![Setup::Msg { th: 0 }], actors: vec![vec![Op::Handoff { th: 0 }], vec![Op::PostNewest]] };
-    exhaustive(&mut ctx, &s5h, if thorough { 4000 } else { 150 }, "corpus_s5_handoff_vs_post_newest");
+    exhaustive(&mut ctx, &s5h, if thorough { 800 } else { 150 }, "corpus_s5_handoff_vs_post_newest");
 
     // ---- task stream: concurrent emitters of ONE task (stdout pump, stderr pump, control path)
     let e = |stderr: bool| Op::TaskEmit { stderr };
@@ -1613,7 +1613,7 @@ fn main() {
     ];
     for (i, actors) in task_cases.into_iter().enumerate() {
         let case = Case { setup: vec![], actors };
-        exhaustive(&mut ctx, &case, if thorough { 3000 } else { [60, 120, 120][i] }, "exhaustive_task_emitters");
+        exhaustive(&mut ctx, &case, if thorough { 600 } else { [60, 120, 120][i] }, "exhaustive_task_emitters");
     }
     for k in 0..(if thorough { 12 } else { 2 }) {
         if !ctx.stop() {
@@ -1639,7 +1639,7 @@ fn main() {
     mixes.push((msgs(2), vec![vec![Op::CompactionAuto { th: 0, schedule: false }], vec![run(false, Some(0))], vec![Op::Branch { th: 0 }]], 40));
     for (setup, actors, cap) in mixes {
         let case = Case { setup, actors };
-        exhaustive(&mut ctx, &case, if thorough { 3000 } else { cap }, "exhaustive_runs_and_store_writers");
+        exhaustive(&mut ctx, &case, if thorough { 300 } else { cap }, "exhaustive_runs_and_store_writers");
     }
     for _ in 0..(if thorough { 600 } else { 40 }) {
         let (setup, threads) = gen_setup(&mut r, false);
@@ -1705,12 +1705,12 @@ fn main() {
         }
         let setup = vec![Setup::Msg { th: 0 }, Setup::Branch { th: 0 }];
         let case = Case { setup, actors: vec![vec![x.clone()], vec![y.clone()]] };
-        exhaustive(&mut ctx, &case, if thorough { 3000 } else { 120 }, "exhaustive_pair");
+        exhaustive(&mut ctx, &case, if thorough { 600 } else { 120 }, "exhaustive_pair");
     }
     // every hook-reachable append function against a message append on the same thread
     for k in [5u64, 13, 14, 6, 7, 8] {
         let case = Case { setup: vec![Setup::Msg { th: 0 }], actors: vec![vec![Op::Append { t: k, th: 0 }], vec![Op::Append { t: 4, th: 0 }]] };
-        exhaustive(&mut ctx, &case, if thorough { 3000 } else { 40 }, "exhaustive_each_append_fn");
+        exhaustive(&mut ctx, &case, if thorough { 300 } else { 40 }, "exhaustive_each_append_fn");
     }
     // restart variants: every sidecar condition x two appenders, cold next_seq cache
     for x in [None, Some(Fault::Delete), Some(Fault::TearTail), Some(Fault::Empty)] {
@@ -1720,11 +1720,11 @@ fn main() {
         }
         setup.push(Setup::Restart);
         let case = Case { setup, actors: vec![vec![Op::Append { t: 4, th: 0 }], vec![Op::Append { t: 5, th: 0 }, Op::Read { th: 0 }]] };
-        exhaustive(&mut ctx, &case, if thorough { 500 } else { 25 }, "exhaustive_restart");
+        exhaustive(&mut ctx, &case, if thorough { 300 } else { 25 }, "exhaustive_restart");
     }
 
     // ---- random 2-4 actors, 1-3 calls each
-    let n = if thorough { 4000 } else { 220 };
+    let n = if thorough { 3000 } else { 220 };
     for i in 0..n {
         let (setup, threads) = gen_setup(&mut r, i % 3 == 0);
         let na = r.range(2, 4) as usize;
